@@ -90,6 +90,13 @@ func DownSamplingMultiSeriesInto(
 	// inf value is invalid, and won't be emitted after down sampling
 	fillInfBlock(targetValues)
 	bs := int(baseSlot)
+	aggType := fieldType.AggType()
+	// first/last: the decoders (files) are visited one after the other, not in time order, so the source slot of
+	// the value held for a target position decides whether a value of another decoder replaces it
+	var heldSlots []uint16
+	if aggType == field.First || aggType == field.Last {
+		heldSlots = make([]uint16, length)
+	}
 	// second loop: iterating tsd decoder
 	for _, decoder := range decoders {
 		if decoder == nil {
@@ -109,11 +116,26 @@ func DownSamplingMultiSeriesInto(
 				break
 			}
 			// not set before
-			if math.IsInf(targetValues[targetPos], 1) {
+			switch {
+			case math.IsInf(targetValues[targetPos], 1):
 				targetValues[targetPos] = value
+			case aggType == field.Last:
+				if movingSourceSlot < heldSlots[targetPos] {
+					continue // the held value is of a later source slot
+				}
+				targetValues[targetPos] = value
+			case aggType == field.First:
+				if movingSourceSlot >= heldSlots[targetPos] {
+					continue // the held value is of an earlier (or the same) source slot
+				}
+				targetValues[targetPos] = value
+			default:
 				// set before, aggregate
-			} else {
-				targetValues[targetPos] = fieldType.AggType().Aggregate(targetValues[targetPos], value)
+				targetValues[targetPos] = aggType.Aggregate(targetValues[targetPos], value)
+				continue
+			}
+			if heldSlots != nil {
+				heldSlots[targetPos] = movingSourceSlot
 			}
 		}
 	}
